@@ -138,6 +138,19 @@ class RealStore:
                 out.append((name, js))
             return [[name, [[evs[0].job_id if evs else None, [self.otel_to_dict(e) for e in evs]] for evs in js]]
                     for name, js in out]
+        if op == "setwindow":  # harness only: give this holder the min/max another run observed
+            self.h._min_timestamp, self.h._max_timestamp = st[1], st[2]
+            return "ok"
+        if op == "pv":  # stream everything and sequence it as otel_to_pv does (sync, no maps)
+            seq = importlib.import_module("tel2puml.otel_to_pv.sequence_otel")
+            out = []
+            try:
+                for name, jobs in self.h.stream_data(None):
+                    for pvs in seq.sequence_otel_job_id_streams(jobs, async_flag=bool(st[1]) if len(st) > 1 else False):
+                        out.append([name, sorted((dict(p) for p in pvs), key=lambda d: d["eventId"])])
+            except Exception as ex:  # noqa: BLE001
+                return f"{type(ex).__name__}: {str(ex)[:200]}"
+            return sorted(out, key=lambda x: (x[0], x[1][0]["jobId"] if x[1] else ""))
         if op == "dump":
             with self.h.engine.connect() as c:
                 nodes = c.execute(self.sa.text(
